@@ -24,6 +24,14 @@
 //   ms how                           move onto itself under another spelling (0 Directory::move(P, dir+"/"), 1 dir+"/./name", 2 dir+"/sub/../name",
 //                                    3 File::move(dir+"//name"), 4 File::move(dir+"/"), 5 relative source / absolute destination): returns true and
 //                                    the file is untouched; 6 move onto an existing different file, 7 into a directory holding another file of that name
+//   fo how n seed kind               a FAILED open followed by work through the same object (the path is removed first): 0 File f; f.open(P, READ) fails,
+//                                    f.put(data) writes P; 1 TextFile t(P, READ) fails, t.append writes P; 2 File f(other); f.open(P, RW) fails, f.open(WRITE)
+//                                    + write goes to P and leaves the other file alone; 3 File f(P); f.open(path in a missing directory, WRITE) fails, f.put
+//                                    fails too and P stays as it was; 4 TextFile t; t.open(P, READ) fails, t << String writes P; 5 File f; f.open(P, RW) fails,
+//                                    f.open(WRITE), f << String
+//   fc how mode n1 s1 kind fl n2 s2 after   File (how 0) / TextFile (how 1) open for WRITE / APPEND, n1 bytes written, [flush()], f.copy(other), n2 more bytes
+//                                    through the same object (after: put/append, write/<<, << ByteArray / put), close: the original holds everything,
+//                                    the copy holds the first part (exactly when flushed before, else a prefix of it)
 //   cs how                           copy onto itself under another spelling: 0 Directory::copy(P, dir+"/"), 1 copy(P, dir) (dir + name is P), 2 dir+"/./name",
 //                                    3 dir+"/c17_sub/../name", 4 File(P).copy(dir), 5 File(P).copy(dir+"//name"), 6 relative source / absolute destination,
 //                                    7 copy(P, link to P), 8 copy(link to P, P): whatever the call returns, the file keeps its bytes; 9 copy onto an
@@ -592,6 +600,127 @@ static void run_history(const vf::Case& c)
 			}
 			continue;
 		}
+		else if (o.name == "fo") {
+			int how = (int)(((o.i(0) % 6) + 6) % 6);
+			std::string d = ref::tmpdir(), opath = d + "/c17_other.dat";
+			unlink(P().c_str());
+			unlink((d + "/c17_link.dat").c_str());
+			h.exists = false;
+			h.model.clear();
+			bool textual = how == 1 || how == 4 || how == 5;
+			std::string data = textual ? text_content(o.i(1), (uint64_t)o.i(2), (int)o.i(3)) : content(o.i(1), (uint64_t)o.i(2), (int)o.i(3));
+			static const char* names[] = {"File f; f.open(P, READ) fails; f.put(data)", "TextFile t(P, READ) fails; t.append(text)", "File f(other); f.open(P, RW) fails; f.open(WRITE); f.write(data)",
+			                              "File f(P); f.open(path in a missing directory, WRITE) fails; f.put(data)", "TextFile t; t.open(P, READ) fails; t << String", "File f; f.open(P, RW) fails; f.open(WRITE); f << String"};
+			ctx += vf::str(" ", names[how], " (", data.size(), " bytes)");
+			if (how == 0) {
+				File f;
+				VF_CHECK(!f.open(path, File::READ), ctx, ": open(READ) of a missing file returned true");
+				VF_CHECK(f.put(BA(data)), ctx, ": put returned false");
+				h.model = data;
+			}
+			else if (how == 1) {
+				TextFile t(path, File::READ);
+				VF_CHECK(!t, ctx, ": TextFile(P, READ) of a missing file is open");
+				VF_CHECK(t.append(AS(data)), ctx, ": append returned false");
+				h.model = data;
+			}
+			else if (how == 2) {
+				std::string ocontent = content(53, (uint64_t)o.i(2) + 1, 2);
+				VF_CHECK(ref::spit(opath, ocontent), "harness: cannot write ", opath);
+				{
+					File f(AS(opath));
+					VF_CHECK(!f.open(path, File::RW), ctx, ": open(RW) of a missing file returned true");
+					VF_CHECK(f.open(File::WRITE), ctx, ": open(WRITE) after the failed open(P, RW) returned false");
+					VF_CHECK(f.write(data.data(), (int)data.size()) == (int)data.size(), ctx, ": write returned a short count");
+					f.close();
+				}
+				std::string c2 = ctx + ": the other file the object referred to before";
+				verify(opath, ocontent, c2.c_str(), false);
+				unlink(opath.c_str());
+				h.model = data;
+			}
+			else if (how == 3) {
+				std::string before = content(100, (uint64_t)o.i(2) + 2, 2);
+				VF_CHECK(ref::spit(P(), before), "harness: cannot write ", P());
+				File f(path);
+				VF_CHECK(!f.open(AS(d + "/c17_nodir/x.dat"), File::WRITE), ctx, ": open(WRITE) in a missing directory returned true");
+				VF_CHECK(!f.put(BA(data)), ctx, ": put returned true although the object's path lies in a missing directory");
+				VF_CHECK(!ref::exists(d + "/c17_nodir"), ctx, ": the missing directory appeared");
+				h.model = before;
+			}
+			else if (how == 4) {
+				TextFile t;
+				VF_CHECK(!t.open(path, File::READ), ctx, ": open(READ) of a missing file returned true");
+				t << AS(data);
+				t.close();
+				h.model = data;
+			}
+			else {
+				File f;
+				VF_CHECK(!f.open(path, File::RW), ctx, ": open(RW) of a missing file returned true");
+				VF_CHECK(f.open(File::WRITE), ctx, ": open(WRITE) after the failed open(P, RW) returned false");
+				f << AS(data);
+				f.close();
+				h.model = data;
+			}
+			h.exists = wrote = true;
+		}
+		else if (o.name == "fc") {
+			int how = (int)(o.i(0) & 1), mode = (int)(o.i(1) & 1), after = (int)(((o.i(8) % 3) + 3) % 3);
+			bool fl = (o.i(5) & 1) != 0;
+			std::string d1 = how ? text_content(o.i(2), (uint64_t)o.i(3), (int)o.i(4)) : content(o.i(2), (uint64_t)o.i(3), (int)o.i(4));
+			std::string d2 = how ? text_content(o.i(6), (uint64_t)o.i(7), (int)o.i(4)) : content(o.i(6), (uint64_t)o.i(7), (int)o.i(4));
+			std::string sofar = (mode == 1 && h.exists ? h.model : std::string()) + d1, opath = ref::tmpdir() + "/c17_other.dat";
+			unlink(opath.c_str());
+			ctx += vf::str(how ? " TextFile" : " File", " open for ", mode ? "APPEND" : "WRITE", ", ", d1.size(), " bytes written, ", fl ? "flush(), " : "", "copy(other), ", d2.size(), " more bytes through the same object (",
+			               after == 0 ? (how ? "append" : "put") : after == 1 ? (how ? "<< String" : "write") : (how ? "put" : "<< ByteArray"), "), close()");
+			auto check_copy = [&]() {
+				std::string got;
+				VF_CHECK(ref::slurp(opath, got), ctx, ": the copy does not exist");
+				if (fl)
+					VF_CHECK(got == sofar, ctx, ": the copy taken after flush() differs from what had been written: ", diffmsg(got, sofar));
+				else
+					VF_CHECK(got.size() <= sofar.size() && sofar.compare(0, got.size(), got) == 0, ctx, ": the copy is not a prefix of what had been written: ", diffmsg(got, sofar));
+			};
+			File::OpenMode om = mode ? File::APPEND : File::WRITE;
+			if (how) {
+				TextFile t(path, om);
+				VF_CHECK(!!t, ctx, ": cannot open");
+				VF_CHECK(t.append(AS(d1)), ctx, ": append returned false");
+				if (fl)
+					t.flush();
+				VF_CHECK(t.copy(AS(opath)), ctx, ": copy returned false");
+				check_copy();
+				if (after == 0)
+					VF_CHECK(t.append(AS(d2)), ctx, ": append after the copy returned false");
+				else if (after == 1)
+					t << AS(d2);
+				else
+					VF_CHECK(t.put(AS(d2)), ctx, ": put after the copy returned false");
+				t.close();
+			}
+			else {
+				File f(path, om);
+				VF_CHECK(!!f, ctx, ": cannot open");
+				VF_CHECK(f.write(d1.data(), (int)d1.size()) == (int)d1.size(), ctx, ": write returned a short count");
+				if (fl)
+					f.flush();
+				VF_CHECK(f.copy(AS(opath)), ctx, ": copy returned false");
+				check_copy();
+				if (after == 0)
+					VF_CHECK(f.put(BA(d2)), ctx, ": put after the copy returned false");
+				else if (after == 1)
+					VF_CHECK(!!f && f.write(d2.data(), (int)d2.size()) == (int)d2.size(), ctx, ": the object is no longer open after copy() / write returned a short count");
+				else {
+					VF_CHECK(!!f, ctx, ": the object is no longer open after copy()");
+					f << BA(d2);
+				}
+				f.close();
+			}
+			unlink(opath.c_str());
+			h.model = sofar + d2;
+			h.exists = wrote = true;
+		}
 		else if (o.name == "cs") {
 			if (!h.exists)
 				continue;
@@ -1071,9 +1200,17 @@ static Gen<vf::Op> histop()
 			o.name = "fs";
 			o.a = {*vf::irange<int>(0, 1), seed, *vf::irange<int>(0, 12)};
 		}
-		else if (w < 67) {
+		else if (w < 62) {
 			o.name = "tw";
 			o.a = {*gen::elementOf(std::vector<int>{0, 1, 2, 2, 2, 3, 4, 5, 6}), *sizegen(false), seed, *vf::irange<int>(1, 3)};
+		}
+		else if (w < 65) {
+			o.name = "fo";
+			o.a = {*vf::irange<int>(0, 5), *sizegen(false), seed, *vf::irange<int>(0, 3)};
+		}
+		else if (w < 68) {
+			o.name = "fc";
+			o.a = {*vf::irange<int>(0, 1), *vf::irange<int>(0, 1), *sizegen(false), seed, *vf::irange<int>(0, 3), *gen::elementOf(std::vector<int>{1, 1, 0}), *sizegen(false), seed + 1, *vf::irange<int>(0, 2)};
 		}
 		else if (w < 75) {
 			o.name = "tm";
@@ -1312,6 +1449,22 @@ static void classify_hist(const vf::Case& c)
 				size = (exists ? size : 0) + o.i(1);
 			if (size >= 0 && size != 12)
 				nt = true; // (12 = length of the link's own target string)
+			exists = true;
+		}
+		else if (o.name == "fo") {
+			static const char* nm[] = {"File.open(READ)_then_put", "TextFile(READ)_then_append", "reused.open(RW)_then_open(WRITE)", "reused.open_in_missing_dir_then_put", "TextFile.open(READ)_then_<<", "File.open(RW)_then_open(WRITE)_<<"};
+			st.cls(std::string("hist.failed_open.") + nm[o.i(0) % 6]);
+			exists = true;
+			size = (o.i(0) % 6) == 3 ? 100 : o.i(1);
+			nt = true;
+		}
+		else if (o.name == "fc") {
+			st.cls(std::string("hist.copy_while_open_for_write.") + ((o.i(5) & 1) ? "flushed" : "unflushed"));
+			if (o.i(6) > 0) {
+				st.cls("hist.copy_while_open_for_write.then_more_written");
+				nt = true;
+			}
+			size = ((o.i(1) & 1) && exists && size >= 0 ? size : 0) + o.i(2) + o.i(6);
 			exists = true;
 		}
 		else if (o.name == "cs") {
